@@ -1,4 +1,5 @@
 import WK.Theorems.C22
+import WK.Proofs.C22_Reencode
 import WK.Gen.C22
 /-
   C22 — T tie for the protocol constants.  `WK.Gen.C22` is regenerated from
@@ -185,5 +186,130 @@ example : enc_send.length = 10 ∧ (enc_recv.filter (fun it => it.guard ≠ []))
 
 example : interpEnc ⟨4, false, (Send.mk 10 7 [1] [2] [3] 2 9 [] [4, 5] [6, 7, 8]).val⟩ enc_send =
     encSend 4 (Send.mk 10 7 [1] [2] [3] 2 9 [] [4, 5] [6, 7, 8]) := by decide
+
+/-! ## decoder layouts: an interpreter for the extracted read lists -/
+
+/-- values read so far (most recent first), by Go field name -/
+abbrev REnv := List (String × Val)
+
+def REnv.get (e : REnv) (k : String) : Val :=
+  match e.find? (fun p => p.1 == k) with
+  | some p => p.2
+  | none => .none
+
+/-- guards of a decoder are evaluated on what has been read so far -/
+def evalAtomD (v : Nat) (hsv : Bool) (env : REnv) : Atom → Bool
+  | .vLt n => decide (v < n)
+  | .vGe n => decide (v ≥ n)
+  | .stream => isSet (env.get "Setting").nat settingStream
+  | .topic => isSet (env.get "Setting").nat settingTopic
+  | .hsv => hsv
+  | .nonEmpty f => !(env.get f).byt.isEmpty
+  | .lenPos => true
+
+def evalGuardD (v : Nat) (hsv : Bool) (env : REnv) (g : List Atom) : Bool := g.all (evalAtomD v hsv env)
+
+/-- one read -/
+def readItem (v : Nat) (k : Kind) (b : Bytes) : Option (Val × Bytes) :=
+  match k with
+  | .u8 => (getU8 b).bind fun (x, r) => some (.n x, r)
+  | .u32 => (getU32 b).bind fun (x, r) => some (.n x, r)
+  | .u64 => (getU64 b).bind fun (x, r) => some (.n x, r)
+  | .str => (getStr b).bind fun (x, r) => some (.b x, r)
+  | .bytes => some (.b b, [])
+  | .seq => (getSeq v b).bind fun (x, r) => some (.n x, r)
+
+def defaultVal : Kind → Val
+  | .str | .bytes => .b []
+  | _ => .n 0
+
+/-- meaning of a decode layout: guarded reads in order; a field whose guard is false keeps
+    its zero value and consumes nothing -/
+def interpDec (v : Nat) (hsv : Bool) (mk : REnv → Frame) : List Item → REnv → Bytes → Option Frame
+  | [], env, _ => some (mk env)
+  | it :: its, env, b =>
+    if evalGuardD v hsv env it.guard then
+      (readItem v it.kind b).bind fun (x, r) => interpDec v hsv mk its ((it.field, x) :: env) r
+    else interpDec v hsv mk its ((it.field, defaultVal it.kind) :: env) b
+
+theorem c22_field_order_dec_send (v : Nat) (h : Flags) (b : Bytes) :
+    decSend v h b = interpDec v false (fun env =>
+      .send h { setting := (env.get "Setting").nat, clientSeq := (env.get "ClientSeq").nat,
+                clientMsgNo := (env.get "ClientMsgNo").byt, streamNo := (env.get "StreamNo").byt,
+                channelID := (env.get "ChannelID").byt, channelType := (env.get "ChannelType").nat,
+                expire := (env.get "Expire").nat, msgKey := (env.get "MsgKey").byt,
+                topic := (env.get "Topic").byt, payload := (env.get "Payload").byt }) dec_send [] b := by
+  rw [decSend_eq]
+  unfold decSend'
+  cases h1 : getU8 b with
+  | none => simp [dec_send, interpDec, readItem, evalGuardD, h1]
+  | some pr =>
+    obtain ⟨setting, r⟩ := pr
+    by_cases c4 : (v < 5 ∧ 2 ≤ v ∧ isSet setting settingStream = true) <;> by_cases c7 : v ≥ 3 <;>
+      by_cases c9 : isSet setting settingTopic = true <;>
+      simp [dec_send, interpDec, readItem, evalGuardD, evalAtomD, REnv.get, defaultVal, Val.nat, Val.byt, h1, c4, c7, c9,
+        Option.bind_assoc, streamOn, topicOn, and_assoc]
+
+theorem c22_field_order_dec_connect (h : Flags) (b : Bytes) :
+    decConnect h b = interpDec 0 false (fun env => .connect h { version := (env.get "Version").nat, deviceFlag := (env.get "DeviceFlag").nat, deviceID := (env.get "DeviceID").byt, uid := (env.get "UID").byt, token := (env.get "Token").byt, clientTimestamp := (env.get "ClientTimestamp").nat, clientKey := (env.get "ClientKey").byt }) dec_connect [] b := by
+  simp [decConnect, dec_connect, interpDec, readItem, evalGuardD, evalAtomD, REnv.get, defaultVal, Val.nat, Val.byt, bind, pure, Option.bind_assoc]
+
+set_option maxHeartbeats 2000000 in
+theorem c22_field_order_dec_recvack (v : Nat) (h : Flags) (b : Bytes) :
+    decRecvack v h b = interpDec v false (fun env => .recvack h { messageID := (env.get "MessageID").nat, messageSeq := (env.get "MessageSeq").nat }) dec_recvack [] b := by
+  simp [decRecvack, dec_recvack, interpDec, readItem, evalGuardD, evalAtomD, REnv.get, defaultVal, Val.nat, Val.byt, bind, pure, Option.bind_assoc]
+
+theorem c22_field_order_dec_disconnect (h : Flags) (b : Bytes) :
+    decDisconnect h b = interpDec 0 false (fun env => .disconnect h { reasonCode := (env.get "ReasonCode").nat, reason := (env.get "Reason").byt }) dec_disconnect [] b := by
+  simp [decDisconnect, dec_disconnect, interpDec, readItem, evalGuardD, evalAtomD, REnv.get, defaultVal, Val.nat, Val.byt, bind, pure, Option.bind_assoc]
+
+theorem c22_field_order_dec_sub (h : Flags) (b : Bytes) :
+    decSub h b = interpDec 0 false (fun env => .sub h { setting := (env.get "Setting").nat, subNo := (env.get "SubNo").byt, channelID := (env.get "ChannelID").byt, channelType := (env.get "ChannelType").nat, action := (env.get "Action").nat, param := (env.get "Param").byt }) dec_sub [] b := by
+  simp [decSub, dec_sub, interpDec, readItem, evalGuardD, evalAtomD, REnv.get, defaultVal, Val.nat, Val.byt, bind, pure, Option.bind_assoc]
+
+theorem c22_field_order_dec_suback (h : Flags) (b : Bytes) :
+    decSuback h b = interpDec 0 false (fun env => .suback h { subNo := (env.get "SubNo").byt, channelID := (env.get "ChannelID").byt, channelType := (env.get "ChannelType").nat, action := (env.get "Action").nat, reasonCode := (env.get "ReasonCode").nat }) dec_suback [] b := by
+  simp [decSuback, dec_suback, interpDec, readItem, evalGuardD, evalAtomD, REnv.get, defaultVal, Val.nat, Val.byt, bind, pure, Option.bind_assoc]
+
+theorem c22_field_order_dec_event (h : Flags) (b : Bytes) :
+    decEvent h b = interpDec 0 false (fun env => .event h { id := (env.get "Id").byt, type := (env.get "Type").byt, timestamp := (env.get "Timestamp").nat, data := (env.get "Data").byt }) dec_event [] b := by
+  simp [decEvent, dec_event, interpDec, readItem, evalGuardD, evalAtomD, REnv.get, defaultVal, Val.nat, Val.byt, bind, pure, Option.bind_assoc]
+
+theorem c22_field_order_dec_connack (v : Nat) (h : Flags) (b : Bytes) :
+    decConnack v h b = interpDec v h.hsv (fun env =>
+      .connack h { serverVersion := (env.get "ServerVersion").nat, timeDiff := (env.get "TimeDiff").nat,
+                   reasonCode := (env.get "ReasonCode").nat, serverKey := (env.get "ServerKey").byt,
+                   salt := (env.get "Salt").byt, nodeId := (env.get "NodeId").nat }) dec_connack [] b := by
+  rw [decConnack_eq]
+  unfold decConnack'
+  by_cases c1 : h.hsv = true <;> by_cases c6 : v ≥ 4 <;>
+    simp [dec_connack, interpDec, readItem, evalGuardD, evalAtomD, REnv.get, defaultVal, Val.nat, Val.byt, c1, c6,
+      Option.bind_assoc]
+
+set_option maxHeartbeats 2000000 in
+theorem c22_field_order_dec_recv (v : Nat) (h : Flags) (b : Bytes) :
+    decRecv v h b = interpDec v false (fun env =>
+      .recv h { setting := (env.get "Setting").nat, msgKey := (env.get "MsgKey").byt, fromUID := (env.get "FromUID").byt,
+                channelID := (env.get "ChannelID").byt, channelType := (env.get "ChannelType").nat,
+                expire := (env.get "Expire").nat, clientMsgNo := (env.get "ClientMsgNo").byt,
+                streamFlag := (env.get "StreamFlag").nat, streamNo := (env.get "StreamNo").byt,
+                streamId := (env.get "StreamId").nat, messageID := (env.get "MessageID").nat,
+                messageSeq := (env.get "MessageSeq").nat, timestamp := (env.get "Timestamp").nat,
+                topic := (env.get "Topic").byt, payload := (env.get "Payload").byt }) dec_recv [] b := by
+  rw [decRecv_eq]
+  unfold decRecv'
+  cases h1 : getU8 b with
+  | none => simp [dec_recv, interpDec, readItem, evalGuardD, h1]
+  | some pr =>
+    obtain ⟨setting, r⟩ := pr
+    by_cases c4 : (v < 5 ∧ 2 ≤ v ∧ isSet setting settingStream = true) <;> by_cases c7 : v ≥ 3 <;>
+      by_cases c9 : isSet setting settingTopic = true <;>
+      simp [dec_recv, interpDec, readItem, evalGuardD, evalAtomD, REnv.get, defaultVal, Val.nat, Val.byt, h1, c4, c7, c9,
+        Option.bind_assoc, streamOn, topicOn, and_assoc, streamBlock]
+
+
+/-- non-vacuity: the extracted RECVACK read list, interpreted at version 6, decodes a body -/
+example : interpDec 6 false (fun env => .recvack {} ⟨(env.get "MessageID").nat, (env.get "MessageSeq").nat⟩) dec_recvack [] [0,0,0,0,0,0,0,9, 0,0,0,0,0,0,0,7] =
+    some (.recvack {} { messageID := 9, messageSeq := 7 }) := by decide
 
 end WK.C22
